@@ -36,7 +36,7 @@ HintOk(r, missing) == r.hint = None \/ (r.hint[1] >= 1 /\ r.hint[1] <= missing)
 
 \* ---------------------------------------------------------------- C01
 RoundOk(e) ==
-  /\ WellFormed(e.m)                                      \* premise: the driver only builds well-formed values
+  /\ WellFormedFor(e.m, e.bytes)                         \* premise: the driver only builds well-formed values (payload length = the one its bytes have)
   /\ \A i \in 1..Len(e.sfx) :
        LET r == e.res[i] IN r.v = "msg" /\ r.m = e.m /\ r.consumed = Len(e.bytes) /\ r.rest = e.sfx[i]
 
@@ -57,7 +57,8 @@ SessionOk(e) ==
 \* ---------------------------------------------------------------- C05: all cuts of one complete message
 PrefixesOk(e) ==      \* e.ks: the cut positions tried (all of 0..n-1 for ordinary messages, a selection for maximal ones)
   LET n == Len(e.full)  d == ParseVerdict(e.full, e.sh) IN
-  /\ d.v = "msg" /\ d.consumed = n /\ WellFormed(d.m)       \* premise (otherwise the driver is wrong)
+  /\ IF "m" \in DOMAIN e THEN WellFormedFor(e.m, e.full)    \* premise (otherwise the driver is wrong): the bytes of a well-formed message value,
+     ELSE d.v = "msg" /\ d.consumed = n /\ WellFormed(d.m)   \* or (hand-made maximal frames) bytes that are a well-formed message
   /\ Len(e.cuts) = Len(e.ks)
   /\ \A i \in 1..Len(e.ks) : e.ks[i] \in 0..(n - 1) /\ e.cuts[i].v = "inc" /\ HintOk(e.cuts[i], n - e.ks[i])
   /\ e.sh => /\ Len(e.ccuts) = Len(e.ks)
@@ -133,8 +134,11 @@ ZStrOk(e) == LET d == ZStr(e.buf, e.size)  r == e.res IN
              /\ r.v = d.v
              /\ d.v = "ok" => (r.val = d.val /\ r.consumed = d.consumed)
              /\ d.v = "inc" => HintOk(r, d.miss)
+\* e.ctrl: what the code returned for the same message with plain ids ("ECU", "APP", "CTX").  The rule is about the ids of a message:
+\* if the code returns no message even for the control, its refusal of the variant is not a matter of the id rule
 IdsOk(e) == LET d == ParseVerdict(e.buf, e.sh)  r == e.res IN
-            d.v = "msg" => /\ r.v = "msg" /\ r.m.h.ecu = d.m.h.ecu
+            (d.v = "msg" /\ ("ctrl" \in DOMAIN e => e.ctrl = "msg"))
+                        => /\ r.v = "msg" /\ r.m.h.ecu = d.m.h.ecu
                            /\ (IsSome(d.m.x) => IsSome(r.m.x) /\ r.m.x[1].ap = d.m.x[1].ap /\ r.m.x[1].ct = d.m.x[1].ct)
                            /\ (IsSome(d.m.sh) => IsSome(r.m.sh) /\ r.m.sh[1].ecu = d.m.sh[1].ecu)
 
@@ -183,13 +187,13 @@ Matches(e) == CASE e.op = "parse"     -> ParseOk(e)
                 [] e.op = "idcut"     -> IdCutOk(e)
                 [] OTHER              -> FALSE
 \* the premise under which a line's relation says anything at all (TRUE for relations without premise)
-Premise(e) == CASE e.op = "round"     -> WellFormed(e.m)
-                [] e.op = "prefixes"  -> LET d == ParseVerdict(e.full, e.sh) IN d.v = "msg" /\ d.consumed = Len(e.full)
+Premise(e) == CASE e.op = "round"     -> WellFormedFor(e.m, e.bytes)
+                [] e.op = "prefixes"  -> IF "m" \in DOMAIN e THEN WellFormedFor(e.m, e.full) ELSE LET d == ParseVerdict(e.full, e.sh) IN d.v = "msg" /\ d.consumed = Len(e.full)
                 [] e.op = "junkparse" -> PatternFreeBefore(e.junk, e.msg) /\ e.b.v \in {"msg", "filtered"}
                 [] e.op = "recover"   -> \A i \in 1..Len(e.parts) : PatternFreeBefore(e.parts[i].junk, e.parts[i].msg) /\ e.parts[i].alone.v = "msg"
                 [] e.op = "filter"    -> e.res0.v = "msg" /\ WellFormed(e.res0.m)
                 [] e.op = "stable"    -> Len(e.b2) = DeclaredLen(e.b2, e.sh)
-                [] e.op = "ids"       -> ParseVerdict(e.buf, e.sh).v = "msg"
+                [] e.op = "ids"       -> ParseVerdict(e.buf, e.sh).v = "msg" /\ ("ctrl" \in DOMAIN e => e.ctrl = "msg")
                 [] e.op = "idcut"     -> InsideIdField(e.buf, e.sh) /\ ParseVerdict(e.buf, e.sh).v = "inc"
                 [] e.op \in {"frame", "session"} -> (IF e.op = "frame" THEN e.res.v ELSE e.steps[1].res.v) \in {"msg", "filtered", "skipped"}
                 [] OTHER -> TRUE
